@@ -635,6 +635,54 @@ pub fn rule_witnesses() -> Vec<(Source, Vec<Value>)> {
   out
 }
 
+/// Deterministic rule documents derived from the shape of a document; every rule unit runs them
+/// first on every document (what they look for must not depend on the luck of the random rules):
+/// * a LOCAL utility that shadows a GLOBAL one of the same id with another kind (kind caches and
+///   dispatch tables must come from the definition that matching resolves to);
+/// * `nthChild` with an `ofRule` that every node satisfies, for nodes that have unnamed tokens and
+///   named siblings in front of them / behind them (positions count named siblings only).
+pub fn fixed_specs(root: &N, m: &Material) -> Vec<Value> {
+  let mut out = vec![];
+  let count = |k: &str| root.dfs().filter(|n| n.is_named() && n.kind() == k).count();
+  let mut kinds: Vec<&String> = m.kinds.iter().filter(|k| k.as_str() != "ERROR" && count(k) > 0).collect();
+  kinds.sort_by_key(|k| std::cmp::Reverse(count(k)));
+  if kinds.len() >= 2 {
+    // the most frequent kind locally, another one globally — and the other way round
+    for (local, global) in [(kinds[0], kinds[1]), (kinds[1], kinds[0])] {
+      let utils = json!({"u0": {"kind": local}});
+      let globals = json!([{"id": "u0", "rule": {"kind": global}}]);
+      out.push(json!({"rule": {"matches": "u0"}, "utils": utils, "globals": globals}));
+      out.push(json!({"rule": {"any": [{"matches": "u0"}, {"kind": global, "regex": "^$"}]}, "utils": utils, "globals": globals}));
+      out.push(json!({"rule": {"all": [{"matches": "u0"}, {"regex": "(?s)."}]}, "utils": utils, "globals": globals}));
+    }
+  }
+  let mut picked = 0usize;
+  for n in root.dfs() {
+    if picked >= 4 {
+      break;
+    }
+    if !n.is_named() || n.kind().is_empty() || n.kind() == "ERROR" {
+      continue;
+    }
+    let Some(p) = n.parent() else { continue };
+    let sibs: Vec<N> = p.children().collect();
+    let Some(i) = sibs.iter().position(|s| s.node_id() == n.node_id()) else { continue };
+    let named_before = sibs[..i].iter().filter(|s| s.is_named()).count();
+    let unnamed_before = sibs[..i].iter().filter(|s| !s.is_named() && s.range().len() > 0).count();
+    let named_after = sibs[i + 1..].iter().filter(|s| s.is_named()).count();
+    let unnamed_after = sibs[i + 1..].iter().filter(|s| !s.is_named() && s.range().len() > 0).count();
+    if unnamed_before == 0 || unnamed_after == 0 || named_before + named_after == 0 {
+      continue;
+    }
+    picked += 1;
+    let k = n.kind().to_string();
+    out.push(json!({"rule": {"kind": k, "nthChild": {"position": named_before + 1, "ofRule": {"regex": "(?s)."}}}}));
+    out.push(json!({"rule": {"kind": k, "nthChild": {"position": named_after + 1, "reverse": true, "ofRule": {"regex": "(?s)."}}}}));
+    out.push(json!({"rule": {"kind": k, "nthChild": named_before + 1}}));
+  }
+  out
+}
+
 /// `kind` + `range` rules for (up to `cap`) named nodes of a document, the positions taken from the
 /// nodes themselves
 fn range_rules(root: &N, cap: usize) -> Vec<Value> {
@@ -675,7 +723,8 @@ pub fn rules_unit(ctx: &Ctx, rng: &mut Rng, o: &mut Out, share_vars: bool) {
     let tid = format!("R{si}");
     let ids = register_tree(o, &tid, src, &root);
     let m = harvest(&root, src.lang, rng);
-    let mut derived = battery(&root, src.lang, &m, rng, share_vars, rules_per_src / 2);
+    let mut derived = fixed_specs(&root, &m);
+    derived.extend(battery(&root, src.lang, &m, rng, share_vars, rules_per_src / 2));
     if let Some(mut w) = witness_rules.remove(&src.name) {
       if src.name.contains("astral") {
         w.extend(range_rules(&root, 60));
